@@ -139,16 +139,19 @@ def local_ops(ctx: Ctx, rule: str) -> None:
                 problems.append((f"with 'own' the cache part is {cache}", v))
         else:
             problems.append(("the cache part does not depend on 'own' being enabled", v))
-        ret = ast.unparse(v.path.exit_node.value)
-        if ret != "list(set(cache_states).union(pool_states))":
-            problems.append((f"show returns {ret}", v))
+        # result = union of exactly the cache part and the pool part (an unset pool part counts as empty)
+        rv = v.path.exit_node.value
+        names = {n_.id for n_ in ast.walk(rv) if isinstance(n_, ast.Name)} - {"list", "set", "sorted"}
+        unions = [c for c in ast.walk(rv) if (isinstance(c, ast.Call) and call_name(c) == "union") or (isinstance(c, ast.BinOp) and isinstance(c.op, ast.BitOr))]
+        if names != {"cache_states", "pool_states"} or len(unions) != 1 or any(isinstance(c, ast.Call) and call_name(c) in ("intersection", "difference") for c in ast.walk(rv)):
+            problems.append((f"show returns {ast.unparse(rv)}", v))
     ctx.expect_sites(rule + "s", n, 2, fref, False, "returning path of show")
     ctx.record(rule + "s", "PROV", fref, "show = union(local states if 'own' enabled else [], states of permitted sources)", not problems,
                {"paths": n}, "" if not problems else problems[0][0])
     # pool_states is fed only by transport.show of permitted sources
     fn = ctx.repo.func(fref)
     feeds = [s for s in ast.walk(fn.node) if isinstance(s, ast.Assign) and ast.unparse(s.targets[0]) == "pool_states"]
-    okf = len(feeds) == 2 and ast.unparse(feeds[0].value) == "set()" and "mirror_states" in ast.unparse(feeds[1].value) \
+    okf = len(feeds) == 2 and ast.unparse(feeds[0].value) in ("set()", "None") and "mirror_states" in ast.unparse(feeds[1].value) \
         and {n.id for n in ast.walk(feeds[1].value) if isinstance(n, ast.Name)} <= {"set", "mirror_states", "pool_states"}
     ms = [s for s in ast.walk(fn.node) if isinstance(s, ast.Assign) and ast.unparse(s.targets[0]) == "mirror_states"]
     okf = okf and len(ms) == 1 and ast.unparse(ms[0].value) == "cls.transport.show(source_params, object)"
@@ -296,9 +299,13 @@ def redownload(ctx: Ctx, rule: str) -> None:
         return norm.disj([own_off, expr_formula(v, i, "pool_root_exists and (not local_root_exists or not cache_valid)")])
 
     # cache_valid is a loop-carried flag here: check the guard on the flag itself
+    def own_off_at(v: PathView, i: int):
+        # the scope may be tested on the raw string or on the parsed list
+        return norm.disj([v.formula_of(ast.parse("'own' not in params['pool_scope']", mode="eval").body, i),
+                          v.formula_of(ast.parse("'own' not in params.get_list('pool_scope')", mode="eval").body, i)])
+
     def required2b(v: PathView, i: int, c: ast.Call):
-        own_off = v.formula_of(ast.parse("'own' not in params['pool_scope']", mode="eval").body, i)
-        return norm.disj([own_off, norm.conj([v.formula_of(ast.parse("pool_root_exists", mode="eval").body, i)])])
+        return norm.disj([own_off_at(v, i), norm.conj([v.formula_of(ast.parse("pool_root_exists", mode="eval").body, i)])])
 
     guard_rule(ctx, rule + "g", fref2, views2, lambda c: _is_transport_call(c) and call_name(c) == "get_root", required2b, min_sites=2,
                what="cls.transport.get_root call", describe_required="pool scope without 'own', or the pool root exists (and the cache is invalid)")
@@ -306,7 +313,7 @@ def redownload(ctx: Ctx, rule: str) -> None:
     for v in views2:
         for i, c in v.calls(lambda c: _is_transport_call(c) and call_name(c) == "get_root"):
             prem = v.premise(i, 0)
-            if norm.implies(prem, v.formula_of(ast.parse("'own' not in params['pool_scope']", mode="eval").body, i)):
+            if norm.implies(prem, own_off_at(v, i)):
                 continue
             n += 1
             conds = [j for j in range(i) if v.steps[j].kind == "cond" and ast.unparse(v.steps[j].node) == "not cache_valid" and v.steps[j].pol]
@@ -348,6 +355,16 @@ def refuse_without_local(ctx: Ctx, rule: str) -> None:
 
 
 def root_scope_table(ctx: Ctx, rule: str) -> None:
+    """Root states live in the shared pool: it is contacted only when the 'shared' scope is enabled, the local root only with 'own'."""
+    shared = "'shared' in params.get_list('pool_scope')"
+    for op, interesting in (("check_root", {"transport", "_check_root"}), ("get_root", {"transport", "_check_root", "_get_root"})):
+        fref = f"{RSB}.{op}"
+        views = function_views(ctx, fref, names_interesting(interesting))
+        guard_rule(ctx, rule + ("" if op == "check_root" else "g"), fref, views, _is_transport_call,
+                   lambda v, i, c: expr_formula(v, i, shared), min_sites=1, missing_is_violation=True,
+                   what=f"shared pool access (cls.transport.*) in {op}",
+                   describe_required="'shared' is among the enabled pool scopes")
+    # answers: without the shared scope the local root alone decides / is used
     fref = f"{RSB}.check_root"
     views = function_views(ctx, fref, names_interesting({"transport", "_check_root"}))
     n, problems = 0, []
@@ -355,17 +372,15 @@ def root_scope_table(ctx: Ctx, rule: str) -> None:
         if v.path.exit != "return":
             continue
         n += 1
-        own = expr_formula(v, 0, "params['pool_scope'] == 'own'")
         prem = v.premise(len(v.steps), 0)
+        ret = v.canon_text(v.path.exit_node.value, len(v.steps))
         tcalls = [call_name(c) for i, c in v.calls(_is_transport_call)]
-        if norm.implies(prem, own):
-            if tcalls or v.canon_text(v.path.exit_node.value, len(v.steps)) != "cls._check_root(params, object)":
-                problems.append(("scope 'own': the pool is contacted or the answer is not the local root", v))
-        else:
-            ret = v.canon_text(v.path.exit_node.value, len(v.steps))
-            if "cls._check_root(params, object) or" not in ret or "cls.transport.check_root(params, object)" not in ret:
-                problems.append((f"wider scope: answer is {ret}", v))
-    ctx.record(rule, "TABLE", fref, "check_root: scope 'own' -> local only; otherwise local or (pool and not a vm)", not problems and n == 2, {"paths": n},
+        if not tcalls:
+            if ret != "cls._check_root(params, object)":
+                problems.append((f"without pool access the answer is {ret}", v))
+        elif "cls._check_root(params, object) or" not in ret or "cls.transport.check_root(params, object)" not in ret:
+            problems.append((f"with the shared scope the answer is {ret}", v))
+    ctx.record(rule + "t", "TABLE", fref, "check_root: local root, or (shared scope enabled and the pool has it and the object is not a vm)", not problems and n == 2, {"paths": n},
                "" if not problems and n == 2 else (problems[0][0] if problems else "unexpected shape of check_root"))
     fref = f"{RSB}.get_root"
     views = function_views(ctx, fref, names_interesting({"transport", "_check_root", "_get_root"}))
@@ -375,19 +390,15 @@ def root_scope_table(ctx: Ctx, rule: str) -> None:
             continue
         n += 1
         prem = v.premise(len(v.steps), 0)
-        no_own = expr_formula(v, 0, "'own' not in params['pool_scope']")
-        only_own = expr_formula(v, 0, "params['pool_scope'] == 'own'")
         names = [call_name(c) for i, c in v.calls(lambda c: call_name(c) in ("get_root", "_get_root"))]
-        if norm.implies(prem, no_own):
-            if names != ["get_root"]:
-                problems.append((f"scope without 'own': calls {names}", v))
-        elif norm.implies(prem, only_own):
-            if names != ["_get_root"]:
-                problems.append((f"scope exactly 'own': calls {names}", v))
-        else:
-            if not names or names[-1] != "_get_root":
-                problems.append((f"mixed scope must end with the local get: {names}", v))
-    ctx.record(rule + "g", "TABLE", fref, "get_root: no 'own' -> pool only; exactly 'own' -> local only; mixed -> (conditional download) then local", not problems and n >= 3,
+        own = expr_formula(v, 0, "'own' in params.get_list('pool_scope')")
+        if "_get_root" in names and norm.implies(prem, norm.neg(own)):
+            problems.append(("the local root is used although the 'own' scope is disabled", v))
+        if not names:
+            problems.append(("a path of get_root gets nothing", v))
+        if "get_root" in names and "_get_root" in names and names[-1] != "_get_root":
+            problems.append((f"mixed scope must end with the local get: {names}", v))
+    ctx.record(rule + "gt", "TABLE", fref, "get_root: no 'shared' -> local only; 'shared' without 'own' -> pool only; both -> (conditional download) then local", not problems and n >= 3,
                {"paths": n}, "" if not problems and n >= 3 else (problems[0][0] if problems else "unexpected shape of get_root"))
 
 
@@ -439,9 +450,14 @@ def run(ctx: Ctx) -> None:
     ctx.call(chain_siblings, "10")
     ctx.call(fresh_checksums, "11")
     ctx.call(root_transfer_siblings, "12")
+    ctx.call(mirror_listing, "13")
+    ctx.call(pool_listing_names, "14")
 
 
 MUTANTS = [
+    ("root-check-contacts-disabled-shared-pool", POOL, "        if \"shared\" not in params.get_list(\"pool_scope\"):\n            return local_root_exists", "        if params[\"pool_scope\"] == \"own\":\n            return local_root_exists", "8"),
+    ("mirror-intersection-restarts-on-empty", POOL, "                if pool_states is None\n", "                if not pool_states\n", "13"),
+    ("every-entry-is-a-state", POOL, "states = [p[: -len(format)] for p in states if p.endswith(format)]", "states = [p.replace(format, \"\") for p in states]", "14"),
     ("root-removed-elsewhere", POOL, "        dst_image_name = os.path.join(shared_pool, image_base_names)\n        cls.ops.delete(dst_image_name, params)", "        dst_image_name = os.path.join(shared_pool, os.path.basename(target_image))\n        cls.ops.delete(dst_image_name, params)", "12p"),
     ("set-root-downloads", POOL, "        cls.ops.upload(target_image, dst_image_name, params)", "        cls.ops.download(target_image, dst_image_name, params)", "12"),
     ("own-cache-breaks-get", POOL, "            source_scope = cls.get_source_scope(source_path, source_params, params)\n            if source_scope == \"own\" or source_scope not in scopes:\n                continue\n            logging.debug(f\"Choosing {source} as the get source to use\")",
@@ -556,6 +572,66 @@ def root_transfer_siblings(ctx: Ctx, rule: str) -> None:
     same = len(paths) == 3 and len(set(paths.values())) == 1
     ctx.record(rule + "p", "SIBLING", f"{POOL}:QCOW2ImageTransfer.get_root / set_root / unset_root", "all three address the same pool file: ':' + shared_pool / <vm> / basename(image path)", same,
                {"pool_paths": paths}, "" if same else f"the root state is fetched, stored and removed under different pool paths: {paths}")
+
+
+def mirror_listing(ctx: Ctx, rule: str) -> None:
+    """Listing through several mirrors: a state counts as available in the pools only if every permitted mirror has it.
+
+    The running intersection must start from a 'not started' sentinel that an empty intermediate result cannot be mistaken
+    for; with an emptiness test the next mirror re-initialises it, the answer depends on the order of the mirrors and a state
+    missing from the closest source (the only one get() uses) is reported present."""
+    fref = f"{SSB}.show"
+    fn = ctx.repo.func(fref)
+    ctx.touch(fref)
+    loop = the_loop(ctx, fref, ast.For, lambda l: ast.unparse(l.iter) == "sources", "loop over the show sources")
+    stores = [s_ for s_ in ast.walk(loop) if isinstance(s_, ast.Assign) and ast.unparse(s_.targets[0]) == "pool_states"]
+    init = [s_ for s_ in fn.node.body if isinstance(s_, ast.Assign) and ast.unparse(s_.targets[0]) == "pool_states"]
+    ok, why, test = False, "the combination of the mirrors' listings changed shape", None
+    if len(stores) == 1 and len(init) == 1:
+        v = stores[0].value
+        if isinstance(v, ast.IfExp):
+            test, first, rest = v.test, v.body, v.orelse
+        else:
+            par = [i for i in ast.walk(loop) if isinstance(i, ast.If) and stores[0] in i.body]
+            test, first, rest = (par[0].test, v, None) if par else (None, None, None)
+        if test is not None:
+            f = norm.formula(test)
+            started = norm.formula(ast.parse("pool_states is None", mode="eval").body)
+            flipped = False
+            if norm.equivalent(f, norm.neg(started)):
+                first, rest, flipped = rest, first, True
+            sentinel_ok = norm.equivalent(f, started) or flipped
+            init_none = isinstance(init[0].value, ast.Constant) and init[0].value.value is None
+            comb_ok = rest is None or (isinstance(rest, ast.Call) and isinstance(rest.func, ast.Attribute) and rest.func.attr == "intersection" and ast.unparse(rest.func.value) == "pool_states") \
+                or (isinstance(rest, ast.BinOp) and isinstance(rest.op, ast.BitAnd))
+            ok = sentinel_ok and init_none and comb_ok
+            if not sentinel_ok:
+                why = f"the 'first mirror' test is `{ast.unparse(test)}`: an empty intersection is taken for 'not started' and the next mirror's listing is adopted wholesale (order dependent, states missing from the closest source are reported)"
+            elif not init_none:
+                why = "the running intersection does not start as None"
+            elif not comb_ok:
+                why = "mirrors are combined with something other than an intersection"
+    ctx.record(rule, "TABLE", fref, "pool_states = first permitted mirror's states under an `is None` sentinel, afterwards the intersection with each further mirror", ok,
+               {"test": ast.unparse(test) if test is not None else None}, "" if ok else why)
+
+
+def pool_listing_names(ctx: Ctx, rule: str) -> None:
+    """A pool directory also holds lock files and per-image directories: only entries carrying the state suffix are states."""
+    fref = f"{POOL}:QCOW2ImageTransfer.show"
+    fn = ctx.repo.func(fref)
+    ctx.touch(fref)
+    comps = [s_.value for s_ in ast.walk(fn.node) if isinstance(s_, (ast.Assign, ast.Return)) and isinstance(s_.value, ast.ListComp)]
+    ok, detail = False, None
+    if len(comps) == 1 and len(comps[0].generators) == 1:
+        g = comps[0].generators[0]
+        v = ast.unparse(g.target)
+        detail = ast.unparse(comps[0])
+        filt = any(norm.equivalent(norm.formula(t), norm.formula(ast.parse(f"{v}.endswith(format)", mode="eval").body)) for t in g.ifs)
+        elt = ast.unparse(comps[0].elt)
+        strip = elt in (f"{v}[:-len(format)]", f"{v}.removesuffix(format)", f"{v}[:len({v}) - len(format)]")
+        ok = filt and strip and len(g.ifs) == 1
+    ctx.record(rule, "TABLE", fref, "pool listing: exactly the entries ending in the state suffix (.qcow2 / .state), with that suffix cut off the end", ok, {"listing": detail},
+               "" if ok else f"every directory entry is reported as a state ({detail}): lock files ('<state>.qcow2.lock' -> '<state>.lock') and per-image directories appear as states, also after the state was removed")
 
 
 def fresh_checksums(ctx: Ctx, rule: str) -> None:
